@@ -2,7 +2,9 @@
    This file contains only the pinned statements; proofs live in Proofs/.  The
    statements are repeated in coq/pins/C01.v and re-checked on every run. *)
 From Coq Require Import List Bool ZArith.
-From GV Require Import Base.Outcome Base.AMap Model.GState Spec.AGraph Proofs.SpecOpsOk.
+From Coq Require Import Permutation.
+From GV Require Import Base.Outcome Base.AMap Model.GState Model.Creation Spec.AGraph Spec.History.
+From GV Require Import Proofs.SpecOpsOk Proofs.WFDefs Proofs.Refine Proofs.HistoryOk.
 Import ListNotations.
 
 Section C01.
@@ -99,4 +101,66 @@ Section C01.
     is_panic (snd (spec_add_edge teqb tltb a e)) = false /\
     is_fuel (snd (spec_add_edge teqb tltb a e)) = false.
   Proof. exact (spec_add_edge_no_panic teqb tltb). Qed.
+
+  (* ---- the faithful twelve-field model (Model/Creation.v) refines the spec ladder ---- *)
+  Notation gstate := (gstate T A).
+  Notation WF := (@WF T A teqb tltb).
+
+  (* every state reachable by any history of mutation calls is coherent *)
+  Theorem C01_model_reachable_WF : forall s (g : gstate), reachable teqb tltb s g -> WF g.
+  Proof. exact (WF_reachable teqb tltb teqb_spec tltb_asym tltb_total). Qed.
+
+  (* one add_edge call on a coherent state: stays coherent, returns the outcome the spec
+     dictates, yields the node list and the edge multiset the spec dictates, and leaves
+     all twelve fields untouched when it returns an error *)
+  Theorem C01_model_add_edge_refines : forall (g : gstate) (e : edge),
+    WF g ->
+    WF (fst (add_edge teqb tltb g e)) /\
+    snd (add_edge teqb tltb g e) = snd (spec_add_edge teqb tltb (Abs g) e) /\
+    sp (fst (add_edge teqb tltb g e)) = sp g /\
+    nodes_vec (fst (add_edge teqb tltb g e)) = a_nodes (fst (spec_add_edge teqb tltb (Abs g) e)) /\
+    Permutation (flat_map snd (edges (fst (add_edge teqb tltb g e))))
+                (a_edges (fst (spec_add_edge teqb tltb (Abs g) e))) /\
+    (forall k, snd (add_edge teqb tltb g e) = Err k -> fst (add_edge teqb tltb g e) = g).
+  Proof. exact (add_edge_refines teqb tltb teqb_spec tltb_asym tltb_total). Qed.
+
+  Theorem C01_model_add_node_refines : forall (g : gstate) (n : node),
+    WF g ->
+    exists g', add_node teqb g n = Ok g' /\ WF g' /\ Abs g' = spec_add_node teqb (Abs g) n.
+  Proof. exact (add_node_refines teqb tltb teqb_spec). Qed.
+
+  Theorem C01_model_never_panics : forall (g : gstate) (e : edge),
+    WF g ->
+    is_panic (snd (add_edge teqb tltb g e)) = false /\ is_fuel (snd (add_edge teqb tltb g e)) = false.
+  Proof. exact (add_edge_no_panic teqb tltb teqb_spec tltb_asym tltb_total). Qed.
+
+  Theorem C01_model_batch_prefix : forall es (g g' : gstate) k,
+    WF g -> add_edges teqb tltb g es = (g', Err k) ->
+    exists p e rest,
+      es = p ++ e :: rest /\ g' = apply_ok_m teqb tltb g p /\
+      (forall q x q', p = q ++ x :: q' ->
+                      snd (add_edge teqb tltb (apply_ok_m teqb tltb g q) x) = Ok tt) /\
+      add_edge teqb tltb g' e = (g', Err k).
+  Proof. exact (add_edges_prefix teqb tltb teqb_spec tltb_asym tltb_total). Qed.
+
+  Theorem C01_model_new_from_is_history : forall ns es s (g : gstate),
+    new_from_nodes_and_edges teqb tltb ns es s = Ok g -> reachable teqb tltb s g.
+  Proof. exact (new_from_reachable teqb tltb teqb_spec). Qed.
 End C01.
+
+(* non-vacuity: the hypotheses on the name order are met by integers, and a coherent
+   non-trivial state exists *)
+From Coq Require Import ZArith Lia.
+Example C01_nonvacuous :
+  (forall x y, Z.eqb x y = true <-> x = y) /\
+  (forall x y, Z.ltb x y = true -> Z.ltb y x = false) /\
+  (forall x y, Z.ltb x y = false -> Z.ltb y x = false -> x = y) /\
+  reachable Z.eqb Z.ltb (mkspecs false DKeepLast MCreate false true SErr)
+    (run_muts Z.eqb Z.ltb (new (mkspecs false DKeepLast MCreate false true SErr))
+       [MutEdge (mkedge 5 3 (Some 1) (@None Z)); MutEdge (mkedge 3 5 (Some 7) None);
+        MutEdge (mkedge 3 3 None None)]%Z).
+Proof.
+  split; [apply Z.eqb_eq|]. split; [intros x y H; apply Z.ltb_lt in H; apply Z.ltb_ge; lia|].
+  split; [intros x y H1 H2; apply Z.ltb_ge in H1; apply Z.ltb_ge in H2; lia|].
+  eexists. reflexivity.
+Qed.
